@@ -1029,3 +1029,7 @@ add("C15", "benign-report-model-checks-path", CTF,
 add("C15", "recorded-changeset-filtered-afterwards", FC,
     [("        self.changesets.append(result)\n", "        result.changes = [c for c in result.changes if c.lineNumber not in self.line_exclude]\n        self.changesets.append(result)\n")],
     "fire", "R-MODEL-FAITHFUL", "ChangeSet")
+add("C11", "worker-raises-recursion-limit", LT,
+    [("            with file_context.timer.measure(\"transform\"):\n                for transformer in self.transformers:", "            with file_context.timer.measure(\"transform\"):\n                sys.setrecursionlimit(5000)\n                for transformer in self.transformers:"),
+     ("import libcst as cst\n", "import sys\n\nimport libcst as cst\n")],
+    "fire", "R-WORKER-ISOLATION", "apply")
